@@ -433,64 +433,134 @@ func ConstTables(c *core.Ctx) Tables {
 	return tb
 }
 
-// RangeElem describes `for i, b := range x` over value x in f: the element
-// load, the index value, and the loop header.
+// RangeElem describes a forward loop over every element of x in f — either
+// `for i, b := range x` or `for i := 0; i < len(x); i++` — : the element
+// address, the element load (nil when only fields of the element are read), the
+// index value, and the loop's blocks.
 type RangeElem struct {
-	Load   *ssa.UnOp
-	Index  ssa.Value
-	Header *ssa.BasicBlock
-	Body   *ssa.BasicBlock
-	Done   *ssa.BasicBlock
-	Phi    *ssa.Phi
+	ElemAddr *ssa.IndexAddr
+	Load     *ssa.UnOp
+	Index    ssa.Value
+	Header   *ssa.BasicBlock
+	Body     *ssa.BasicBlock
+	Done     *ssa.BasicBlock
+	Phi      *ssa.Phi
 }
 
-// FindRangeOver finds range loops whose ranged operand is x (a slice value).
+// FindRangeOver finds forward full-range loops over x that load the element.
 func FindRangeOver(f *ssa.Function, x ssa.Value) []RangeElem {
 	var out []RangeElem
+	for _, r := range FindRangeOver2(f, x) {
+		if r.Load != nil {
+			out = append(out, r)
+		}
+	}
+	return out
+}
+
+// FindRangeOver2 also returns loops that only take the element's address.
+func FindRangeOver2(f *ssa.Function, x ssa.Value) []RangeElem {
+	var out []RangeElem
+	seenHdr := map[*ssa.BasicBlock]bool{}
 	for _, b := range f.Blocks {
 		for _, in := range b.Instrs {
-			u, ok := in.(*ssa.UnOp)
-			if !ok || u.Op != token.MUL {
-				continue
-			}
-			ia, ok := u.X.(*ssa.IndexAddr)
+			ia, ok := in.(*ssa.IndexAddr)
 			if !ok || ia.X != x {
 				continue
 			}
-			bo, ok := ia.Index.(*ssa.BinOp)
-			if !ok || bo.Op != token.ADD || !core.IsConstInt(bo.Y, 1) {
+			var ph *ssa.Phi
+			var h *ssa.BasicBlock
+			var cmpIdx ssa.Value
+			initWant := int64(0)
+			if bo, ok := ia.Index.(*ssa.BinOp); ok && bo.Op == token.ADD && core.IsConstInt(bo.Y, 1) {
+				// range idiom: index = phi+1, phi starts at -1, header tests phi+1 < len
+				p, ok := bo.X.(*ssa.Phi)
+				if !ok {
+					continue
+				}
+				ph, h, cmpIdx, initWant = p, p.Block(), bo, -1
+				// back edges carry phi+1
+				okBack := true
+				for k, pr := range h.Preds {
+					if h.Dominates(pr) && p.Edges[k] != ssa.Value(bo) {
+						okBack = false
+					}
+				}
+				if !okBack {
+					continue
+				}
+			} else if p, ok := ia.Index.(*ssa.Phi); ok {
+				// counted idiom: index = phi, phi starts at 0, header tests phi < len, back edge phi+1
+				ph, h, cmpIdx, initWant = p, p.Block(), p, 0
+				okBack := true
+				for k, pr := range h.Preds {
+					if !h.Dominates(pr) {
+						continue
+					}
+					add, ok := p.Edges[k].(*ssa.BinOp)
+					if !ok || add.Op != token.ADD || add.X != ssa.Value(p) || !core.IsConstInt(add.Y, 1) {
+						okBack = false
+					}
+				}
+				if !okBack {
+					continue
+				}
+			} else {
 				continue
 			}
-			ph, ok := bo.X.(*ssa.Phi)
-			if !ok || ph.Comment != "rangeindex" {
-				continue
-			}
-			h := ph.Block()
-			// header: phi; i+1; i+1 < len(x) ; if → body, done
 			iff := core.IfOf(h)
 			if iff == nil {
 				continue
 			}
 			cmp, ok := iff.Cond.(*ssa.BinOp)
-			if !ok || cmp.Op != token.LSS || cmp.X != ssa.Value(bo) {
+			if !ok || cmp.Op != token.LSS || cmp.X != cmpIdx {
 				continue
 			}
 			ln, ok := cmp.Y.(*ssa.Call)
 			if !ok || !core.IsBuiltin(&ln.Call, "len") || ln.Call.Args[0] != x {
 				continue
 			}
-			// init edge must be -1
-			okInit := false
+			okInit, nInit := true, 0
 			for k, p := range h.Preds {
-				if !h.Dominates(p) && core.IsConstInt(ph.Edges[k], -1) {
-					okInit = true
+				if !h.Dominates(p) {
+					nInit++
+					if !core.IsConstInt(ph.Edges[k], initWant) {
+						okInit = false
+					}
 				}
 			}
-			if !okInit {
+			if !okInit || nInit == 0 {
 				continue
 			}
-			out = append(out, RangeElem{Load: u, Index: bo, Header: h, Body: h.Succs[0], Done: h.Succs[1], Phi: ph})
+			body, done := h.Succs[0], h.Succs[1]
+			if !body.Dominates(b) && body != b {
+				continue
+			}
+			r := RangeElem{ElemAddr: ia, Index: ia.Index, Header: h, Body: body, Done: done, Phi: ph}
+			for _, ref := range *ia.Referrers() {
+				if u, ok := ref.(*ssa.UnOp); ok && u.Op == token.MUL {
+					r.Load = u
+				}
+			}
+			if seenHdr[h] && r.Load == nil {
+				continue
+			}
+			seenHdr[h] = true
+			out = append(out, r)
 		}
 	}
-	return out
+	// one entry per loop header: prefer the one with a load
+	byHdr := map[*ssa.BasicBlock]int{}
+	var res []RangeElem
+	for _, r := range out {
+		if i, ok := byHdr[r.Header]; ok {
+			if res[i].Load == nil && r.Load != nil {
+				res[i] = r
+			}
+			continue
+		}
+		byHdr[r.Header] = len(res)
+		res = append(res, r)
+	}
+	return res
 }
